@@ -197,7 +197,8 @@ def o4(h, st):
     h.done()
 
 
-@contract("C15", "O4b.oniom.real_solvers", level="B", structures=lambda tier: [{"case": c} for c in ("identical_levels", "model_is_system", "capped_identical")],
+@contract("C15", "O4b.oniom.real_solvers", level="B", structures=lambda tier: [{"case": c, "shared": sh, "basis": b} for c in ("identical_levels", "model_is_system", "capped_identical") for sh, b in ((False, "sto-3g"), (True, "3-21g"), (True, "sto-3g"))
+                                   if not (c == "capped_identical" and b != "sto-3g")],
           native_samples=lambda st, rnd, tier: [{}], targets=[(ON, "ONIOMProblemDecomposition.__init__"), (ON, "ONIOMProblemDecomposition.simulate"), (HC, "Fragment.build"), (HC, "Fragment.simulate")])
 def o4b(h, st):
     """bounded (PySCF): H4 chain - model at identical levels gives the low-level energy of the whole system; model = whole system gives the high-level energy"""
@@ -206,25 +207,47 @@ def o4b(h, st):
     from tangelo import SecondQuantizedMolecule
     from tangelo.algorithms.classical import CCSDSolver
     geom = [["H", (0., 0., 0.)], ["H", (0., 0., 0.75)], ["H", (0., 0., 2.0)], ["H", (0., 0., 2.75)]]
-    opt = {"basis": "sto-3g"}
-    system = Fragment(solver_low="HF", options_low=dict(opt))
+    basis = st.get("basis", "sto-3g")
+    opt = {"basis": basis}
+    # `shared`: ONE options dictionary object handed to every level of every fragment (what a user script typically does); otherwise a private copy per level
+    mk = (lambda: opt) if st.get("shared") else (lambda: dict(opt))
+    opts = []
+
+    def o():
+        d = mk()
+        opts.append(d)
+        return d
+    # the model fragment is listed BEFORE the system fragment when the dictionary is shared (the order in which the levels are built must not matter)
     if st["case"] == "identical_levels":
-        model = Fragment(solver_low="HF", options_low=dict(opt), solver_high="HF", options_high=dict(opt), selected_atoms=[0, 1])
+        model = Fragment(solver_low="HF", options_low=o(), solver_high="HF", options_high=o(), selected_atoms=[0, 1])
     elif st["case"] == "capped_identical":
-        model = Fragment(solver_low="HF", options_low=dict(opt), solver_high="HF", options_high=dict(opt), selected_atoms=[0, 1, 2], broken_links=[Link(2, 3, 1.0, "H")], spin=0)
+        model = Fragment(solver_low="HF", options_low=o(), solver_high="HF", options_high=o(), selected_atoms=[0, 1, 2], broken_links=[Link(2, 3, 1.0, "H")], spin=0)
     else:
-        model = Fragment(solver_low="HF", options_low=dict(opt), solver_high="CCSD", options_high=dict(opt), selected_atoms=None if False else [0, 1, 2, 3])
+        model = Fragment(solver_low="HF", options_low=o(), solver_high="CCSD", options_high=o(), selected_atoms=None if False else [0, 1, 2, 3])
+    system = Fragment(solver_low="HF", options_low=o())
+    frags = [model, system] if st.get("shared") else [system, model]
     geom_before = snapshot(geom)
-    oniom = h.call(ON, "ONIOMProblemDecomposition", {"geometry": geom, "fragments": [system, model]})
+    opts_before = [snapshot(d) for d in opts]
+    oniom = h.call(ON, "ONIOMProblemDecomposition", {"geometry": geom, "fragments": frags})
     e = h.call(ON, "ONIOMProblemDecomposition.simulate", oniom)
     h.check("geometry argument unchanged", snapshot(geom) == geom_before)
-    mol = SecondQuantizedMolecule([(a, tuple(x)) for a, x in geom], 0, 0, basis="sto-3g")
+    h.check("the options dictionaries handed to the fragments are unchanged", [snapshot(d) for d in opts] == opts_before, detail=str(opts[:2]))
+    mol = SecondQuantizedMolecule([(a, tuple(x)) for a, x in geom], 0, 0, basis=basis)
     if st["case"] in ("identical_levels", "capped_identical"):
         h.check("identical levels: low-level energy of the whole system", abs(e - mol.mf_energy) < 1e-8, detail=f"{e} vs {mol.mf_energy}")
     else:
         ccsd = CCSDSolver(mol)
         ref = ccsd.simulate()
         h.check("model == system: high-level energy", abs(e - ref) < 1e-6, detail=f"{e} vs {ref}")
+    # a second problem built from the SAME fragment options (e.g. the next point of a geometry scan) sees the same options
+    if st.get("shared") and st["case"] != "capped_identical":
+        geom2 = [[a, (x[0], x[1], x[2] * 1.05)] for a, x in geom]
+        m2 = Fragment(solver_low="HF", options_low=o(), solver_high="HF", options_high=o(), selected_atoms=[0, 1])
+        s2 = Fragment(solver_low="HF", options_low=o())
+        on2 = h.call(ON, "ONIOMProblemDecomposition", {"geometry": geom2, "fragments": [m2, s2]})
+        e2 = h.call(ON, "ONIOMProblemDecomposition.simulate", on2)
+        mol2 = SecondQuantizedMolecule([(a, tuple(x)) for a, x in geom2], 0, 0, basis=basis)
+        h.check("second problem with the same options object: identical levels give the low-level energy in the requested basis", abs(e2 - mol2.mf_energy) < 1e-8, detail=f"{e2} vs {mol2.mf_energy}")
     h.done()
 
 
